@@ -1,5 +1,6 @@
 import TxVerif.Props.C13
 import TxVerif.Tie.PQ
+import TxVerif.Props.C13Stale
 open TxVerif
 #print axioms pq_writers_exclusive
 #print axioms pq_no_deadlock
@@ -10,3 +11,14 @@ open TxVerif
 #print axioms ackInit_layout
 #print axioms Tie.pq_flush_is_one_tx
 #print axioms Tie.pq_ack_is_one_tx
+#print axioms stale_plan_prefix
+#print axioms stale_plan_eq
+#print axioms stale_no_leak
+#print axioms stale_cleanAll
+#print axioms stale_cleanAll_beyond_tail
+#print axioms stale_cleanAll_shape
+#print axioms stale_positions_valid
+#print axioms stale_ack_delivers
+#print axioms layoutFrom_extends
+#print axioms chainExt_iff_flush
+#print axioms Extends.chainExt
